@@ -12,13 +12,13 @@ if [ -n "$MUTANT_INPLACE" ]; then
   if [ -n "$(git status --porcelain)" ]; then echo "/repo not clean"; exit 2; fi
   trap 'git -C /repo checkout -- . >/dev/null 2>&1' EXIT
 else
-  R=/tmp/mrepo; V=/tmp/vx
+  R=/tmp/mrepo$MUT_ID; V=/tmp/vx$MUT_ID
   if [ ! -d $R ]; then git -C /repo worktree add -q --detach $R HEAD || exit 2; fi
   git -C $R checkout -q --detach "$(git -C /repo rev-parse HEAD)" && git -C $R checkout -- . && git -C $R clean -fdq
   mkdir -p $V
   rsync -a --delete --exclude .git --exclude logs --exclude replays --exclude .bin --exclude evidence /verif/ $V/
   sed -i "s#=> /repo/v2#=> $R/v2#; s#=> /repo\$#=> $R#" $V/harness/go.mod
-  trap 'git -C /tmp/mrepo checkout -- . >/dev/null 2>&1; git -C /tmp/mrepo clean -fdq' EXIT
+  trap "git -C $R checkout -- . >/dev/null 2>&1; git -C $R clean -fdq" EXIT
   cd $R || exit 2
 fi
 git apply "$P" || { echo "patch does not apply: $P"; exit 2; }
